@@ -23,4 +23,4 @@ PY
     echo "  NOT installed"
   fi
 done
-git -C /repo worktree remove --force /tmp/wt-$p 2>/dev/null; rm -rf /tmp/mut-out/$p
+if [ -d /verif/seeded/$p-1 ] || [ "$KEEP" != "" ]; then git -C /repo worktree remove --force /tmp/wt-$p 2>/dev/null; rm -rf /tmp/mut-out/$p; else echo "  (kept /tmp/wt-$p and /tmp/mut-out/$p)"; fi
